@@ -94,6 +94,10 @@ theorem handlePhyRequest_same (s : State) (p : Pdu) (o : UInt8) (n : Nat) (s' : 
   all_goals (try (obtain ⟨rfl, -⟩ := h))
   all_goals simp
 
+theorem phyInstantCheck_same (s : State) :
+    (phyInstantCheck s).1.sec = s.sec ∧ (phyInstantCheck s).1.phase = s.phase := by
+  unfold phyInstantCheck; split <;> exact ⟨rfl, rfl⟩
+
 theorem ctlOther_ok (s : State) (p : Pdu) (o : UInt8) (n : Nat) (hok : SecOK s.sec) :
     SecOK (ctlOther s p o n).1.sec ∧ (ctlOther s p o n).1.phase = s.phase := by
   unfold ctlOther
@@ -106,10 +110,12 @@ theorem ctlOther_ok (s : State) (p : Pdu) (o : UInt8) (n : Nat) (hok : SecOK s.s
   · split
     · rename_i s' rsp h
       have := handlePhyRequest_same _ _ _ _ _ _ h
-      simp only [commit_sec, commit_phase, this.1, this.2]; exact ⟨hok, trivial⟩
+      have hc := phyInstantCheck_same s'
+      simp only [commit_sec, commit_phase, hc.1, hc.2, this.1, this.2]; exact ⟨hok, trivial⟩
     · rename_i s' h
       have := handlePhyRequest_same _ _ _ _ _ _ h
-      simp only [this.1, this.2]; exact ⟨hok, trivial⟩
+      have hc := phyInstantCheck_same s'
+      simp only [hc.1, hc.2, this.1, this.2]; exact ⟨hok, trivial⟩
     · split
       · simpa using hok
       · exact ⟨hok, rfl⟩
@@ -249,8 +255,8 @@ theorem inv_of (s : State) (h : SecOK s.sec) (hp : s.phase ≠ .advertising) : I
 theorem endEventPlan_inv (s : State) (h : SecOK s.sec) (hp : s.phase ≠ .advertising) :
     Inv (endEventPlan s) := by
   unfold endEventPlan
-  have hs := handlePending_sec { s with evCounter := s.evCounter + 1, timeSince := s.interval }
-  have hph := handlePending_phase { s with evCounter := s.evCounter + 1, timeSince := s.interval } hp
+  have hs := handlePending_sec { s with evCounter := (s.evCounter + 1) % 65536, timeSince := s.interval }
+  have hph := handlePending_phase { s with evCounter := (s.evCounter + 1) % 65536, timeSince := s.interval } hp
   split
   · exact forceDisconnect_inv _
   · rename_i s' heq
@@ -304,8 +310,8 @@ theorem endEvent_inv (s : State) (h : SecOK s.sec) (hp : s.phase ≠ .advertisin
 theorem timeoutPlan_inv (s : State) (h : SecOK s.sec) (hp : s.phase ≠ .advertising) :
     Inv (timeoutPlan s) := by
   unfold timeoutPlan
-  have hs := handlePending_sec { s with evCounter := s.evCounter + 1, timeSince := s.timeSince + s.interval }
-  have hph := handlePending_phase { s with evCounter := s.evCounter + 1, timeSince := s.timeSince + s.interval } hp
+  have hs := handlePending_sec { s with evCounter := (s.evCounter + 1) % 65536, timeSince := s.timeSince + s.interval }
+  have hph := handlePending_phase { s with evCounter := (s.evCounter + 1) % 65536, timeSince := s.timeSince + s.interval } hp
   split
   · exact forceDisconnect_inv _
   · rename_i s' heq
